@@ -159,6 +159,23 @@ example : specBind { gens := some ["T"], ps := [.generic "T", .native "Optional"
       [.native "Sequence" [.unknown], .native "Optional" [.native "Sequence" [.int]]] =
     some [("T", .native "Sequence" [.int])] := rfl
 
+/-- **the inferred type of a generic call has no free generic parameter of the callee** (`rtype_closed`): every generic
+parameter `g` of the called function is gone from the result type — replaced by what the arguments bound it to, or by the
+bottom type when it met nothing but the bottom type — provided the argument types do not mention `g` themselves (a
+recursive call inside the generic function) and neither do the bound types. Holds whether or not OTHER generic parameters
+of the same call were bound. -/
+theorem rtype_closed (gens : List String) (ret : Ty) (b : Bnd) (args : List Ty) (g : String)
+    (hg : g ∈ gens) (hret : declarable ret = true) (hargs : mentionsGenericList g args = false) (hb : BNoGen g b) :
+    mentionsGeneric g (rtypeForCall (some gens) ret b args) = false :=
+  rtypeForCall_closed gens ret b args g hg hret hargs hb
+
+/-- non-vacuity: `fn pair<A,B>(a: Sequence<A>, b: Sequence<B>) -> (Sequence<A>, Sequence<B>)` called as `pair([1], [])`:
+`A` is bound, `B` met only the bottom type and is completed to it -/
+example : typeOfCall (.func (some ["A", "B"]) [.native "Sequence" [.generic "A"], .native "Sequence" [.generic "B"]] 2
+      (.tuple [.native "Sequence" [.generic "A"], .native "Sequence" [.generic "B"]]))
+      [.native "Sequence" [.int], .native "Sequence" [.unknown]] =
+    .ok (.tuple [.native "Sequence" [.int], .native "Sequence" [.unknown]]) := rfl
+
 /-- a call binds only when the number of arguments lies in the window [required, all parameters] -/
 theorem specBind_arity (f : FuncSpec) (args : List Ty) (b : Bnd) (h : specBind f args = some b) :
     f.nreq ≤ args.length ∧ args.length ≤ f.ps.length := by
